@@ -520,6 +520,16 @@ C15_Diff == [][
     /\ Cardinality(DOMAIN Ev.args.engine) <= p'.M
   ]_vars
 
+\* the staking views the provider module offers to governance and mint (bonded validators by power, total bonded tokens,
+\* bonded ratio) cover exactly the validators handed to consensus: checked at the end of every provider block
+C15_Views ==
+  (IsProv(E) /\ E.a = "Block" /\ Has(p, "views")) =>
+    LET top == SubSeq(p.order, 1, Min2(p.M, Len(p.order))) IN
+    /\ p.views.iter = top
+    /\ SeqToSet(p.views.iter) = ActiveRec(p)
+    /\ p.views.total = SumOver(SeqToSet(top), [ v \in DOMAIN p.vals |-> p.vals[v].tok ])
+    /\ p.views.ratioTotal = p.views.total
+
 \* the recorded set changes only in the provider's own end-block step
 C15_OnlyThere == [][
   PStep => ((p'.lps # p.lps) => Ev.a = "PEndProvVals")
@@ -1168,7 +1178,8 @@ C16_Credit == [][
          /\ Get(p'.pool, d) = Get(p.pool, d) + pk.amt
          /\ (c \in Cons(p)) => (CreditInt(p', c, d) = CreditInt(p, c, d) + pk.amt /\ CreditFrac(p', c, d) = CreditFrac(p, c, d))
          /\ \A c2 \in Cons(p) : (c2 # c) => p'.cons[c2].credit = p.cons[c2].credit
-         /\ Get(p'.supply, d) = Get(p.supply, d) + pk.amt
+         \* a voucher is minted on arrival; a denom native to the provider comes back out of escrow
+         /\ Get(p'.supply, d) = Get(p.supply, d) + (IF Len(d) > 4 /\ SubSeq(d, 1, 4) = "ibc/" THEN pk.amt ELSE 0)
   ]_vars
 
 \* credits and the pool move nowhere else; vouchers are minted nowhere else
@@ -1220,6 +1231,15 @@ C16_Payout == [][
     /\ \A c2 \in Cons(p) : (c2 # c) => p'.cons[c2].credit = p.cons[c2].credit
   ]_vars
 
+
+\* an allocation step for (consumer, denom) touches no other denom: neither the pool nor anybody's credit (a failed
+\* allocation of another denom earlier in the block must stay rolled back)
+C19_AllocateFrame == [][
+  (PStep /\ Ev.a \in {"PAllocateOK", "PAllocateFail"}) =>
+    \A d2 \in (AllDenoms(p) \cup AllDenoms(p')) \ {Ev.args.d} :
+      /\ Get(p'.pool, d2) = Get(p.pool, d2)
+      /\ \A c2 \in Cons(p) \cap Cons(p') : CreditInt(p', c2, d2) = CreditInt(p, c2, d2) /\ CreditFrac(p', c2, d2) = CreditFrac(p, c2, d2)
+  ]_vars
 
 (* ======================================================================= *)
 (* C07  equivocation evidence punishes exactly the signer, only when valid  *)
